@@ -33,6 +33,7 @@ let rec expr () = match next () with
   | "isn" -> C.EIsNone (expr ())
   | "inn" -> C.EIsNotNone (expr ())
   | "isi" -> let e = expr () in let k = cref () in C.EIsInst (e, k)
+  | "isl" -> let e = expr () in let k = int () in C.EIsInstL (e, many k cref)
   | "not" -> C.ENot (expr ())
   | "and" -> let a = expr () in let b = expr () in C.EAnd (a, b)
   | "or" -> let a = expr () in let b = expr () in C.EOr (a, b)
